@@ -61,11 +61,12 @@ def run_final(scratch, jobs, pure=False, nproc=14, timeout=1800):
         shutil.rmtree(wd, ignore_errors=True)
 
 
-def replay_terminals(scratch, terms, length="+1w", pure=False):
+def replay_terminals(scratch, terms, length="+1w", pure=False, start=None):
     """Returns (n_replayed, mismatches[list of dict])."""
     jobs = []
+    kw = {"start": start} if start is not None else {}
     for i, t in enumerate(terms):
-        jobs.append({"id": "u%06d" % i, "text": gen.render_abstract(t["project"], length=length)})
+        jobs.append({"id": "u%06d" % i, "text": gen.render_abstract(t["project"], length=length, **kw)})
     got = run_final(scratch, jobs, pure=pure)
     mism = []
     for i, t in enumerate(terms):
